@@ -5,7 +5,7 @@
  R2  field completeness: every tag branch of dtype_t::fromJson leaves bytes_ assigned
  R3  struct/union writers emit fields in declaration order (fieldNames), never in map order
 """
-from vlib.facts import kids, strip, walk, is_call, call_args, call_object, callee, render, literal
+from vlib.facts import noid, kids, strip, walk, is_call, call_args, call_object, callee, render, literal
 from vlib.cfg import write_target
 from vlib.work import AnalysisBroken
 
@@ -51,6 +51,7 @@ def run(ctx):
     R.rule("C11-R1", "writer/reader JSON key and tag tables agree", floor=30)
     R.rule("C11-R2", "every tag branch of dtype_t::fromJson assigns the byte size", floor=6)
     R.rule("C11-R3", "struct/union fields are written in declaration order", floor=2)
+    R.rule("C11-R5", "a dtype_t method that resolves its reference (self()) reads every data field through the resolved object", floor=15)
     R.rule("C11-R4", "argument metadata: each JSON key is written from and restored into the same field", floor=4)
 
     D = "occa::"
@@ -196,6 +197,28 @@ def run(ctx):
         ok = key2field_w.get(k) is not None and key2field_w.get(k) == key2field_r.get(k)
         R.ob("C11-R4", ok, A, "key:%s <-> field" % k, "%s:%d" % (r.relfile, r.d["line"]),
              "written from and restored into %s" % key2field_w.get(k) if ok else "key %r is written from field %s but restored into field %s" % (k, key2field_w.get(k), key2field_r.get(k)))
+
+    # ---- R5: a dtype_t may be a reference to a registered dtype (ref != NULL); its own fields are then empty (bytes_ == 0, no name) ---------
+    FIELDS = {"occa::dtype_t::" + x for x in ("name_", "bytes_", "registered", "enum_", "struct_", "tuple_", "union_")}
+    n5 = 0
+    for f in prog.funcs.values():
+        if f.d.get("tmpl") == "inst" or not f.q.startswith("occa::dtype_t::") or f.d.get("kind") in ("ctor", "dtor"):
+            continue
+        uses_self = [c for c in f.walk() if is_call(c) and callee(c) == "occa::dtype_t::self" and (call_object(c) is None or strip(call_object(c))["k"] == "CXXThisExpr")]
+        if not uses_self:
+            continue
+        n5 += 1
+        raw = [n for n in f.walk() if n["k"] == "MemberExpr" and n.get("n") in FIELDS and kids(n) and strip(kids(n)[0])["k"] == "CXXThisExpr"]
+        # reads guarded by `ref` being null are reads of the object itself
+        cfg = f.cfg
+        IN = cfg.facts_in()
+        bad = [n for n in raw if not any((not pol) and noid(k).replace(" ", "") in ("this->ref", "(this->ref!=NULL)") or (pol and noid(k).replace(" ", "") in ("(!this->ref)", "(this->ref==NULL)", "(this->ref==nullptr)", "(this->ref==0)")) for (k, pol) in cfg.facts_at(n, IN))]
+        R.ob("C11-R5", not bad, f.q + " " + f.d["sig"][:40], "fields read through self()", f.site(bad[0]) if bad else "%s:%d" % (f.relfile, f.d["line"]),
+             "all data fields are taken from the resolved dtype" if not bad else
+             "`%s` is read from the reference object itself although the method resolves self(): a dtype held by reference (copy, struct field, tuple element, kernel argument) has bytes_ == 0 / no name of its own, "
+             "so it serialises with the wrong size" % bad[0]["n"].split("::")[-1])
+    if n5 < 15:
+        raise AnalysisBroken("dtype_t: only %d methods resolve self()" % n5)
 
 
 META = {
